@@ -108,14 +108,14 @@ theorem unclear_pool_leaks :
     same request identically: the parsed template each one evaluates is the one a fresh engine would parse now. -/
 theorem same_files_same_template {C D : Type} (parse : C → Option D) (h1 h2 : Str → Nat → Option C) (s1 s2 : Cache.State C D)
     (i1 : C15.Inv parse h1 s1) (i2 : C15.Inv parse h2 s2) (hfs : s1.fs = s2.fs) (name : Str) :
-    (Cache.loadCached parse true s1.fs s1.cache name).1 = (Cache.loadCached parse true s2.fs s2.cache name).1 := by
+    (Cache.loadCached parse true false s1.fs s1.cache name).1 = (Cache.loadCached parse true false s2.fs s2.cache name).1 := by
   rw [(C15.loadCached_eq_fresh parse h1 s1 i1 name).1, (C15.loadCached_eq_fresh parse h2 s2 i2 name).1, hfs]
 
 /-- the whole render, as the models compose it: load through the cache, evaluate from a fresh context, serialise. Its result is a function
     of (current files, registered components, request data) alone: the engine's cache state — its entire past — does not occur on the right. -/
 def renderVia {C : Type} (parse : C → Option (List Node)) (W : World) (fuel : Nat) (s : Cache.State C (List Node)) (file : Str) (stack : Stack) :
     Option (R (List Node)) :=
-  ((Cache.loadCached parse true s.fs s.cache file).1).map (fun dom => evaluatePage W fuel file dom stack)
+  ((Cache.loadCached parse true false s.fs s.cache file).1).map (fun dom => evaluatePage W fuel file dom stack)
 
 theorem render_function_of_inputs {C : Type} (parse : C → Option (List Node)) (W : World) (fuel : Nat) (hist : Str → Nat → Option C)
     (s : Cache.State C (List Node)) (hi : C15.Inv parse hist s) (file : Str) (stack : Stack) :
